@@ -36,6 +36,7 @@ TReset ==
 
 \* what clients may be told: sanitised texts only (C16)
 Generic == [k |-> "s", s |-> "Internal server error"]
+SafeText == [k |-> "s", s |-> "the flaky resolver failed (safe to show)"]      \* the driver's one client-safe error
 NoSecret(m) == m.k = "s" /\ ~\E i \in 1..(Len(m.s) - 5) : SubSeq(m.s, i, i + 5) = "secret"
 
 TSubAccepted == IsEv("subscribe.accepted") /\ RecvSubscribe(Ev.id, Ev.q)
@@ -67,7 +68,8 @@ TSubFail ==
   /\ IsEv("sub.fail") /\ Ev.kind # "ctx"
   /\ TheInst(Ev.id, LAMBDA i :
        /\ SubRunFail(i)
-       /\ CASE Ev.kind = "initial" -> iinit[i] /\ Ev.wrote /\ Ev.msg = Generic      \* reported once, generic text
+       /\ CASE Ev.kind = "initial" -> iinit[i] /\ Ev.wrote                            \* reported once:
+                                       /\ (Ev.msg = Generic \/ Ev.msg = SafeText) /\ NoSecret(Ev.msg)  \* generic text, or the text of a safe error
             [] Ev.kind = "retry" -> ~iinit[i] /\ ~Ev.wrote                           \* later failures are retried silently
             [] OTHER -> FALSE)
 \* a run ends with a cancelled-context error: either the connection's context is cancelled, or somebody is in the
